@@ -238,6 +238,7 @@ func (m *CPUModel) RunFn(cell CPUCell, entry *ssa.Function, onRender func(Render
 	defer m.pool.Put(wk)
 	ip := wk.w.IP
 	ip.Reset()
+	ip.UnrollLoops = true // counted loops with bounds fixed by the cell (operand bytes of a decoded length)
 	res := &CellResult{Cell: cell, Entry: map[string]absint.Val{}, Final: map[string]absint.Val{}, AtDispatch: map[string]absint.Val{}, Conds: ip.In.Conds}
 	st := wk.w.NewState()
 	cpu := wk.cpu
